@@ -62,6 +62,19 @@ MODELS = {
 }
 
 
+def warm_up(m, history, in_shape):
+    """the receiving model has already been used (evaluation-mode passes in both directions / log_prob and sample)
+    before the checkpoint is loaded into it: anything it memoised from its own state must not survive the load"""
+    m.eval()
+    x = torch.rand((2,) + tuple(in_shape)) * 0.8 + 0.1
+    with torch.no_grad():
+        for f in ((lambda: m.log_prob(x)), (lambda: m.sample(1))) if history in ("flow", "dist") else ((lambda: m(x)),) if history == "net" else ((lambda: m(x)), (lambda: m.inverse(x))):
+            try:
+                f()
+            except Exception:  # noqa  (no inverse / outside the domain: nothing memoised on that route)
+                pass
+
+
 def prepare(fac, history, seed):
     torch.manual_seed(seed)
     m = fac()
@@ -102,20 +115,27 @@ def share_symbols(A, Bm):
     return keys
 
 
+WARM = [False]
+
+
 def job(cfg):
     name, s1, s2 = cfg["model"], cfg["seed_a"], cfg["seed_b"]
+    WARM[0] = bool(cfg.get("warm"))
     fac, in_shape, history = MODELS[name]
     timeout = cfg["timeout"]
     R = sc.new_registry()
     solver = smt.Z3Proc()
     jr = C01.new_jr(name)
-    tag = "%s/seeds(%d,%d)" % (name, s1, s2)
+    tag = "%s/seeds(%d,%d)%s" % (name, s1, s2, "/loaded-into-a-used-model" if cfg.get("warm") else "")
     CFG.simplex_shortcut = True
     try:
         A = prepare(fac, history, s1)
         Bm = prepare(fac, None if history in ("bn_train", "actnorm_init") else history, s2)
+        if cfg.get("warm"):
+            warm_up(Bm, history, in_shape)
         missing = Bm.load_state_dict(A.state_dict())
-        Bm.eval()
+        if not cfg.get("warm"):
+            Bm.eval()  # (a used model is already in evaluation mode; calling eval() again could hide a stale memo)
         with stubs.torch_patches(random=False):
             R.begin_run()
             share_symbols(A, Bm)
@@ -185,9 +205,9 @@ def report(jr, name, s1, s2, cname, err):
     if jr["violations"]:
         return
     with stubs.real_torch():
-        rep = replay(name, s1, s2)
+        rep = replay(name, s1, s2, warm=WARM[0])
     sig = {"model": name.split("/")[0]}
-    payload = {"property": PROP, "kernel": name, "relation": "reload-reproduces-function", "signature": sig, "error": err, "replay_result": rep, "replay_call": {"fn": "harness.C15:replay", "args": {"name": name, "s1": s1, "s2": s2}}}
+    payload = {"property": PROP, "kernel": name, "relation": "reload-reproduces-function", "signature": sig, "error": err, "replay_result": rep, "replay_call": {"fn": "harness.C15:replay", "args": {"name": name, "s1": s1, "s2": s2, "warm": WARM[0]}}}
     if rep.get("reproduced"):
         fn = "".join(ch if ch.isalnum() else "_" for ch in "%s_%d_%d" % (name, s1, s2))[:100]
         jr["violations"].append({"kernel": name, "relation": "reload-reproduces-function", "signature": sig, "replay": C.write_replay(PROP, fn, payload), "detail": rep})
@@ -195,14 +215,17 @@ def report(jr, name, s1, s2, cname, err):
         jr["inconclusive"].append({"query": name + "/" + cname, "why": "symbolic difference not reproduced on real tensors", "error": err, "replay": rep})
 
 
-def replay(name, s1, s2):
+def replay(name, s1, s2, warm=False):
     res = {"reproduced": False}
     try:
         fac, in_shape, history = MODELS[name]
         A = prepare(fac, history, s1)
         Bm = prepare(fac, None if history in ("bn_train", "actnorm_init") else history, s2)
+        if warm:
+            warm_up(Bm, history, in_shape)
         Bm.load_state_dict(A.state_dict())
-        Bm.eval()
+        if not warm:
+            Bm.eval()
         torch.manual_seed(99)
         x = torch.rand((4,) + in_shape) * 0.8 + 0.1
         with torch.no_grad():
@@ -237,6 +260,7 @@ def configs(tier):
     for name in MODELS:
         for a, b in pairs:
             cfgs.append({"model": name, "seed_a": a, "seed_b": b, "timeout": t})
+        cfgs.append({"model": name, "seed_a": pairs[0][0], "seed_b": pairs[0][1], "warm": True, "timeout": t})
     return cfgs
 
 
@@ -244,7 +268,7 @@ def main():
     rep = C.Report(PROP)
     cfgs = configs(C.TIER)
     rep.functions = C.source_hash([PM.Permutation, PM.RandomPermutation, made_t.MaskedLinear, made_n.MaskedLinear, made_n.MixtureOfGaussiansMADE, DM.MADEMoG, CP.CouplingTransform, NM.BatchNorm, NM.ActNorm, NL.Sigmoid, ST.PointwiseAffineTransform, CV.OneByOneConvolution, FA.MaskedAutoregressiveFlow, FR.SimpleRealNVP, DN.StandardNormal])
-    rep.bounds = {"models": list(MODELS), "seed_pairs": sorted({(c["seed_a"], c["seed_b"]) for c in cfgs}), "histories": ["fresh", "after a training-mode forward (BatchNorm running statistics, flows)", "after data-dependent initialisation (ActNorm)"], "inputs": "2 symbolic rows"}
+    rep.bounds = {"models": list(MODELS), "seed_pairs": sorted({(c["seed_a"], c["seed_b"]) for c in cfgs}), "histories": ["fresh", "checkpoint loaded into a model that has already been evaluated (both directions / log_prob and sample)", "after a training-mode forward (BatchNorm running statistics, flows)", "after data-dependent initialisation (ActNorm)"], "inputs": "2 symbolic rows"}
     rep.assumptions = ["constructor seeds are sampled (a few pairs); parameter values and inputs are symbolic", "non-floating-point state (permutations, masks, degrees, flags) is whatever the real constructors / load_state_dict leave in each model"]
     rep.stubs = ["floating-point state-dict entries replaced by shared symbols in both models"]
     for jr in C.run_jobs(job, cfgs):
